@@ -633,9 +633,39 @@ def rewire(case, tasks):
     return hard, soft
 
 
+class _debug_logging:
+    '''The valjean loggers at DEBUG level for the time of a run (as with
+    `valjean -v`), their records going nowhere: what the program does must
+    not depend on how much it logs.'''
+    # pylint: disable=invalid-name
+
+    def __init__(self, active):
+        self.active = active
+        self.saved = None
+
+    def __enter__(self):
+        if self.active:
+            import logging
+            logger = logging.getLogger('valjean')
+            self.saved = (logger.level, logger.handlers[:], logger.propagate)
+            logger.handlers[:] = [logging.NullHandler()]
+            logger.propagate = False
+            logger.setLevel(logging.DEBUG)
+
+    def __exit__(self, *exc):
+        if self.active:
+            import logging
+            logger = logging.getLogger('valjean')
+            logger.setLevel(self.saved[0])
+            logger.handlers[:] = self.saved[1]
+            logger.propagate = self.saved[2]
+        return False
+
+
 def run_controlled(case, strategy, mon=None, env=None, tasks_graphs=None,
                    max_steps=100000, clock0=0, fine=None, repeat=1,
-                   then=None, then_always=False, backend=None):
+                   then=None, then_always=False, backend=None,
+                   debug_log=False):
     '''One run of the real scheduler under the controller.'''
     # pylint: disable=too-many-locals,too-many-statements
     import valjean.cosette.backends.queue as qmod
@@ -669,7 +699,7 @@ def run_controlled(case, strategy, mon=None, env=None, tasks_graphs=None,
                 ctl.sync(None, f'line:{line}')
         remove_lines, line_hits = _yield_injection(fine[0], fine[1],
                                                    action=line_point)
-    with patches:
+    with patches, _debug_logging(debug_log):
         if backend is None:
             backend = qmod.QueueScheduling(n_workers=case['workers'])
         else:
